@@ -272,8 +272,12 @@ fn do_op<B: Buf>(cx: &mut Ctx, b: &mut B, rest: &mut Vec<u8>, op: &J, what: &str
                     cx.panics += 1;
                     if n <= len || try_ {
                         cx.law("copy_to_slice-panicked", format!("{}: {}({}) panicked ({}) with {} bytes left", what, name, n, rt::panic_message(&*p), len));
+                        return Flow::End;
                     }
-                    Flow::End
+                    // the request did not fit: nothing went through, so the cursor (and every inner
+                    // buffer) must be where it was — the state checks that follow verify it
+                    cx.hit("failed_read_then_continued");
+                    Flow::Continue
                 }
             }
         }
@@ -296,8 +300,10 @@ fn do_op<B: Buf>(cx: &mut Ctx, b: &mut B, rest: &mut Vec<u8>, op: &J, what: &str
                     cx.panics += 1;
                     if n <= len {
                         cx.law("copy_to_bytes-panicked", format!("{}: copy_to_bytes({}) panicked ({}) with {} bytes left", what, n, rt::panic_message(&*p), len));
+                        return Flow::End;
                     }
-                    Flow::End
+                    cx.hit("failed_read_then_continued");
+                    Flow::Continue
                 }
             }
         }
@@ -361,10 +367,14 @@ fn do_op<B: Buf>(cx: &mut Ctx, b: &mut B, rest: &mut Vec<u8>, op: &J, what: &str
                     cx.panics += 1;
                     if size <= len {
                         cx.v(&["C10"], "typed-get-panicked", format!("{}: {}({}) panicked ({}) with {} bytes left", what, mname, nb, rt::panic_message(&*p), len));
+                        return Flow::End;
                     } else if m.try_ {
                         cx.v(&["C10"], "try_get-panicked", format!("{}: {}({}) panicked instead of returning Err ({} bytes left)", what, mname, nb, len));
+                        return Flow::End;
                     }
-                    Flow::End
+                    // get_X with too few bytes: must panic and leave the cursor untouched
+                    cx.hit("failed_read_then_continued");
+                    Flow::Continue
                 }
             }
         }
